@@ -174,7 +174,11 @@ def execute(program):
         states.add(s0)
         transitions.add(f"{s0}:{c['op']}")
         if c["op"] == "persist":
-            m2 = faults.persist(w.m, c["how"])
+            try:
+                m2 = faults.persist(w.m, c["how"])
+            except faults.PersistFailed as e_:
+                w.violate("copy_equal", str(e_), i)
+                break
             a, b = snap.snapshot(w.m), snap.snapshot(m2)
             if a != b:
                 w.violate("copy_equal", "copy between set_ncomp calls differs: " + "; ".join(snap.diff(a, b)[:3]), i)
@@ -235,6 +239,8 @@ def execute(program):
         shape2["cells"][0]["ncomp"] = final
         direct_w = World(shape2)
         j_ = apply_prep(direct_w, program["prep"])
+        # whole-branch assignments made between the set_ncomp calls belong to the directly built module as well
+        j_ = apply_prep(direct_w, [c for c in program["calls"] if c["op"] == "set" and len(c["view"]) == 1], j_)
         # "built directly with n compartments in that branch": same branch length, so length per compartment = total / n
         for b_, n_ in enumerate(final):
             if not direct_w.violations and not direct_w.stopped:
